@@ -103,10 +103,16 @@ func main() {
 			o.cases = append(o.cases, hx.Case{Coq: coq, Replay: c, Nontrivial: code != 0 || len(c.Inject.Ops) >= 4, Tags: tags, Origin: j.origin})
 		default:
 			var res *traceResult
+			used := *c.Workload
 			rounds := max(c.Repeat, 1)
 			for i := 0; i < rounds; i++ {
-				res = runWorkload(*c.Workload)
-				if c.Type == "openrace" {
+				wl := *c.Workload
+				if c.Type == "openrace" || c.Type == "race" {
+					wl.Seed += int64(i) // each round sweeps different delays
+				}
+				used = wl
+				res = runWorkload(wl)
+				if c.Type == "openrace" || c.Type == "race" {
 					if res.errA > 0 || res.errB > 0 {
 						break
 					}
@@ -119,7 +125,7 @@ func main() {
 				}
 				break
 			}
-			coq, tags := traceCoq(*c.Workload, res, fx)
+			coq, tags := traceCoq(used, res, fx)
 			nt := len(c.Workload.Streams) >= 2
 			for _, e := range res.events {
 				if e.F.Kind == kData {
@@ -219,7 +225,7 @@ func main() {
 			if *prop == "C24" {
 				addInject(*c.Inject, origin)
 			}
-		case "trace", "openrace":
+		case "trace", "openrace", "race":
 			addTrace(c, origin)
 		}
 	}
